@@ -10,6 +10,8 @@ struct Yield {}
 impl EventSource for Yield {
     fn subscribe(&mut self, co: CoroutineImpl) {
         // just re-push the coroutine to the ready list
+        #[cfg(may_verif)]
+        crate::verif::yield_hint();
         get_scheduler().schedule(co);
     }
 }
@@ -65,6 +67,8 @@ pub fn yield_with_io<T: EventSource>(resource: &T, is_coroutine: bool) {
         crate::io::thread::PROXY_CO_SENDER.with(|tx| {
             tx.send(es).unwrap();
         });
+        #[cfg(may_verif)]
+        crate::verif::pre_park();
         std::thread::park();
     }
 }
@@ -85,6 +89,8 @@ pub fn get_co_para() -> Option<EventResult> {
 #[inline]
 pub fn yield_now() {
     if unlikely(!is_coroutine()) {
+        #[cfg(may_verif)]
+        crate::verif::yield_hint();
         return std::thread::yield_now();
     }
     let y = Yield {};
